@@ -103,7 +103,7 @@ NONFAULT = [
 # plan
 # ---------------------------------------------------------------------------
 def plan(tier, seed):
-    nprog = 92 if tier == "quick" else 460
+    nprog = 76 if tier == "quick" else 380
     nbinder = 4 if tier == "quick" else 20
     if os.environ.get("VERIF_C06_NPROG"):  # development aid: a smaller plan (floors will then be missed)
         nprog = int(os.environ["VERIF_C06_NPROG"])
@@ -115,7 +115,7 @@ def plan(tier, seed):
             fam = "binder"
         else:
             fam = str(rng.choice(["plain", "gfi", "mixed"], p=[0.4, 0.33, 0.27]))
-        spec = P.gen_program(rng, fam, tier)
+        spec = P.gen_program(rng, fam, tier, light=bool(rng.random() < 0.45))
         hist = []
         if tier == "quick":
             kinds = [str(rng.choice(NONFAULT[:2])), str(rng.choice(NONFAULT[2:], p=[0.25, 0.25, 0.5]))]
@@ -685,8 +685,8 @@ def _run_program(case, ctx):
     f_long = P.build(spec)
     sf_held = seed(f_long)
     a, kw = P.make_call(spec)
-    keys = jax.random.split(jax.random.key(case["kseed"] ^ 0x5EED), NKEYS)
-    key0 = jax.random.key(case["kseed"])
+    keys = jax.random.split(jax.random.key(case["kseed"]), NKEYS)
+    key0 = keys[0]
     base = _base_detail(case)
 
     jitted = {}
@@ -733,9 +733,9 @@ def _run_program(case, ctx):
         e1b = _eval(ctx, seed(f_long), key0, a, kw)
         if _compare_repeat(ctx, case, e0, e1b, "new-seed-wrapper", "immediate"):
             _counter_must_rest(ctx, case, e1b, "immediate repeat through a new seed(f) wrapper")
-    e1c = _eval(ctx, seed(P.build(spec)), key0, a, kw)
-    ctx.count("fresh_closure_checks")
-    _compare_repeat(ctx, case, e0, e1c, "fresh-closure", "immediate")
+        e1c = _eval(ctx, seed(P.build(spec)), key0, a, kw)
+        ctx.count("fresh_closure_checks")
+        _compare_repeat(ctx, case, e0, e1c, "fresh-closure", "immediate")
 
     # ---------------- phase B: histories
     for hi, h in enumerate(case["hist"]):
@@ -755,6 +755,8 @@ def _run_program(case, ctx):
     jevs = jit_all()
     n_eager = NKEYS if cheap else (3 if thorough else 2)
     eag = {}
+
+    eag[0] = e0  # key0 is keys[0]: the first evaluation doubles as eager lane 0
 
     def eager(j):
         if j not in eag:
